@@ -102,7 +102,7 @@ pub mod log_specification {
     //@   ens[enabled.post] r == spec_enabled_from(self.mfs(), 0, level, writing_module@)
     //@   canary
     //@ fn src/log_specification.rs impl LogSpecification / fn update_from
-    //@   props C05
+    //@   props C05,C02
     //@   ens[update_from.post] final(self).mfs() == other.mfs() && final(self).tf() == other.tf()
     //@ fn src/log_specification.rs impl LogSpecification / fn module_filters
     //@   ret r
